@@ -179,7 +179,7 @@ pub fn judge(o: &Obs, acked: &[Ev], inflight: Option<&Ev>) -> Vec<Disc> {
     for (k, rows) in &o.detail {
         if let Some(e) = known.get(k) {
             for (ty, c, s) in rows {
-                if *ty != e.typ || *c != e.ctx || *s != format!("v{}", e.k) {
+                if *ty != e.typ || *c != e.ctx || *s != e.payload_sig() {
                     d.push(Disc { class: "corrupt".into(), detail: format!("k={k} came back as type={ty} ctx={c} s={s}") });
                 }
             }
@@ -434,7 +434,7 @@ pub fn classify(
     for (k, rows) in &o.detail {
         if let Some(e) = events.iter().find(|e| e.k == *k) {
             for (ty, c, s) in rows {
-                if *ty != e.typ || *c != e.ctx || *s != format!("v{}", e.k) {
+                if *ty != e.typ || *c != e.ctx || *s != e.payload_sig() {
                     if in_window {
                         tags.insert("KF-orphan-dir".to_string());
                     } else {
